@@ -171,6 +171,7 @@ pub fn draw_cfg(faulty: bool) -> NetCfg {
         latency: faulty || ctx::chance("net.latency", 1, 2),
         cut_link: faulty && ctx::chance("net.cut", 2, 3),
         close_at_end: true,
+        bulk_peer: None,
     }
 }
 
